@@ -19,6 +19,8 @@
 (*          (<<>> = {}; the library keeps names, also of axes a selection removed);     *)
 (*          vx = FALSE: values not constrained by this model (derivatives);             *)
 (*          mx = FALSE: mapping not constrained (persistence formats do not list it);   *)
+(*          ao = identity of the value array object (numpy.shares_memory), like vo for the mask; `ao = own oid` for every field:     *)
+(*          a result's values are its own - writing into them (WriteArray) reaches no other field                                    *)
 (*          vo = identity of the validity array object: the oid of the lowest field     *)
 (*          whose mask shares memory with this one - `vo = own oid` for every field is  *)
 (*          "a result's validity is its own" (C08)                                      *)
@@ -53,7 +55,7 @@ DReg(lo, hi, units, dims) == [k |-> "region", lo |-> lo, hi |-> hi, units |-> un
 DMsh(region, n, sub, names) == [k |-> "mesh", region |-> region, n |-> n, sub |-> sub, names |-> names]
 DFld(mesh, nv, arr, valid, shape, lab, map, vx, mx, vo) ==
    [k |-> "field", mesh |-> mesh, nv |-> nv, arr |-> arr, valid |-> valid, shape |-> shape, lab |-> lab, map |-> map,
-    vx |-> vx, mx |-> mx, vo |-> vo]
+    vx |-> vx, mx |-> mx, vo |-> vo, ao |-> vo]      \* ao: identity of the VALUE array (like vo for the mask); a new field owns both
 IsF(h, o) == h[o].k = "field"
 IsM(h, o) == h[o].k = "mesh"
 IsR(h, o) == h[o].k = "region"
@@ -117,7 +119,7 @@ AlgebraOps == UnaryOps \cup BinaryOps \cup ProductOps \cup LengthOps \cup {"muln
 SelOps     == {"selplane", "selrange", "getsub", "getregion", "pad", "resample"}
 PersistOps == {"h5", "ovf", "vtk", "xarray"}
 ValidOps   == {"setvalid", "mutatevalid"}
-UpdateOps  == {"updateconst", "setarray", "fromfield"}
+UpdateOps  == {"updateconst", "setarray", "fromfield", "writearray"}
 (* queries: the heap stays as it is, the answer is the outcome ("true" / "false"; "reject" when the library raises) *)
 QueryOps   == {"q_meshclose", "q_fieldclose", "q_regionin", "q_aligned"}
 FieldMakers == AlgebraOps \cup SelOps \cup PersistOps \cup {"diff", "mkfield", "integrate"}
@@ -182,7 +184,7 @@ DCopying(h, o, kind, args0) ==
      [] h[o].k = "field"  ->
           LET cm == DCopyMesh(h, h[o].mesh, kind, args)
               fid == cm[2] + 1
-          IN <<Ext(cm[1], fid, [DFieldRotated(h[o], FieldMesh(h, o).n, MeshReg(h, h[o].mesh).dims, args) EXCEPT !.mesh = cm[2], !.vo = fid]), fid>>
+          IN <<Ext(cm[1], fid, [DFieldRotated(h[o], FieldMesh(h, o).n, MeshReg(h, h[o].mesh).dims, args) EXCEPT !.mesh = cm[2], !.vo = fid, !.ao = fid]), fid>>
 GeoAccepts(h, o, kind, args) ==
    CASE kind = "translate" -> h[o].k # "field"
      [] kind = "scale"     -> h[o].k # "field" /\ ScaleOK(args.s)
@@ -221,7 +223,7 @@ FR(h, f)   == h[h[h[f].mesh].region]
 FN(h, f)   == h[h[f].mesh].n
 CellQ(h, f, d) == CellR(FR(h, f), FN(h, f), d)
 NM(n)      == [n |-> n]            \* the index maps of FieldAlg only read m.n
-Derived(fo, mid, fid, arr, valid, shape) == [fo EXCEPT !.mesh = mid, !.vo = fid, !.arr = arr, !.valid = valid, !.shape = shape]
+Derived(fo, mid, fid, arr, valid, shape) == [fo EXCEPT !.mesh = mid, !.vo = fid, !.ao = fid, !.arr = arr, !.valid = valid, !.shape = shape]
 Mapped(fo, mid, fid, src, shape) ==
    Derived(fo, mid, fid, FA!Gather(fo.arr, src, ZeroVec(fo.nv)), FA!Gather(fo.valid, src, FALSE), shape)
 Idx(k) == [j \in 1 .. k |-> j]
@@ -328,7 +330,7 @@ PersistRes(h, f) ==
    LET fo == h[f]  mo == FM(h, f)  ro == FR(h, f)
        pm == DefMap(fo.nv, fo.lab, ro.dims)
    IN AllocMF(h, ro, [s \in DOMAIN mo.sub |-> h[mo.sub[s]]], mo.names, mo.n,
-              LAMBDA mid, fid : [fo EXCEPT !.mesh = mid, !.vo = fid, !.map = pm, !.mx = fo.mx /\ fo.map = pm])
+              LAMBDA mid, fid : [fo EXCEPT !.mesh = mid, !.vo = fid, !.ao = fid, !.map = pm, !.mx = fo.mx /\ fo.map = pm])
 MetricXYZ(r) == r.dims = <<"x", "y", "z">> /\ \A d \in DOMAIN r.units : r.units[d] = "m"
 
 (* ---- the step function ---------------------------------------------------------------------- *)
@@ -392,6 +394,7 @@ InModel(h, rts, c) ==
                 [] c.op = "diff" -> c.a.d \in 1 .. nd
                 [] c.op = "setvalid" -> (c.a.kind = "norm" => fo.vx) /\ (c.a.kind = "array" => Len(c.a.mask) = Len(fo.valid))
                 [] c.op = "mutatevalid" -> c.a.cell \in DOMAIN fo.valid
+                [] c.op = "writearray" -> c.a.cell \in DOMAIN fo.arr
                 [] c.op \in UpdateOps -> TRUE
                 [] c.op = "selplane" -> nd >= 2 /\ c.a.d \in 1 .. nd /\ c.a.j \in 0 .. (n[c.a.d] - 1)
                 [] c.op = "selrange" -> c.a.d \in 1 .. nd /\ 0 <= c.a.j1 /\ c.a.j1 <= c.a.j2 /\ c.a.j2 < n[c.a.d]
@@ -420,7 +423,7 @@ Apply(h, rts, c) ==
            IN Bound(AllocF(h, LAMBDA fid : DFld(o, nv, PatArr(N, nv, c.a.p), [k \in 1 .. N |-> TRUE], n, lab,
                                                 DefMap(nv, lab, h[h[o].region].dims), TRUE, TRUE, fid)), rts, c.dst)
      [] c.op \in UnaryOps ->
-           Bound(AllocF(h, LAMBDA fid : [h[o] EXCEPT !.vo = fid, !.arr = [k \in DOMAIN @ |-> [cc \in 1 .. h[o].nv |-> UnVal(c.op, @[k][cc])]]]), rts, c.dst)
+           Bound(AllocF(h, LAMBDA fid : [h[o] EXCEPT !.vo = fid, !.ao = fid, !.arr = [k \in DOMAIN @ |-> [cc \in 1 .. h[o].nv |-> UnVal(c.op, @[k][cc])]]]), rts, c.dst)
      [] c.op \in BinaryOps ->
            LET p == rts[c.y]  fo == h[o]  go == h[p]  md == MetaOf(fo, go) IN
            IF ~(SameMeshDeep(h, o, p) /\ (fo.nv = go.nv \/ fo.nv = 1 \/ go.nv = 1)) THEN Rej(h, rts)
@@ -436,9 +439,9 @@ Apply(h, rts, c) ==
                 ELSE Bound(AllocF(h, LAMBDA fid : DFld(fo.mesh, 3, [k \in DOMAIN fo.arr |-> IF vx THEN Cross(fo.arr[k], go.arr[k]) ELSE ZeroVec(3)],
                                                        AndArr(fo.valid, go.valid), fo.shape, fo.lab, fo.map, vx, FALSE, fid)), rts, c.dst)
      [] c.op = "norm" ->
-           Bound(AllocF(h, LAMBDA fid : [h[o] EXCEPT !.vo = fid, !.nv = 1, !.arr = [k \in DOMAIN @ |-> <<0>>], !.lab = <<>>, !.map = <<>>, !.mx = TRUE, !.vx = FALSE]), rts, c.dst)
+           Bound(AllocF(h, LAMBDA fid : [h[o] EXCEPT !.vo = fid, !.ao = fid, !.nv = 1, !.arr = [k \in DOMAIN @ |-> <<0>>], !.lab = <<>>, !.map = <<>>, !.mx = TRUE, !.vx = FALSE]), rts, c.dst)
      [] c.op = "orientation" ->
-           Bound(AllocF(h, LAMBDA fid : [h[o] EXCEPT !.vo = fid, !.arr = [k \in DOMAIN @ |-> ZeroVec(h[o].nv)], !.vx = FALSE]), rts, c.dst)
+           Bound(AllocF(h, LAMBDA fid : [h[o] EXCEPT !.vo = fid, !.ao = fid, !.arr = [k \in DOMAIN @ |-> ZeroVec(h[o].nv)], !.vx = FALSE]), rts, c.dst)
      [] c.op = "integrate" -> Bound(IntegrateRes(h, o, c.a.d), rts, c.dst)
      [] c.op = "fromfield" ->
            LET g == rts[c.y] IN
@@ -462,16 +465,16 @@ Apply(h, rts, c) ==
            IN IF c.op \in {"q_meshclose", "q_fieldclose"} /\ ~sameDims THEN Rej(h, rts)
               ELSE [heap |-> h, roots |-> rts, outcome |-> IF ans THEN "true" ELSE "false"]
      [] c.op = "mulnum" ->
-           Bound(AllocF(h, LAMBDA fid : [h[o] EXCEPT !.vo = fid, !.arr = [k \in DOMAIN @ |-> [cc \in 1 .. h[o].nv |-> @[k][cc] * c.a.c]]]), rts, c.dst)
+           Bound(AllocF(h, LAMBDA fid : [h[o] EXCEPT !.vo = fid, !.ao = fid, !.arr = [k \in DOMAIN @ |-> [cc \in 1 .. h[o].nv |-> @[k][cc] * c.a.c]]]), rts, c.dst)
      [] c.op = "comp" ->
-           Bound(AllocF(h, LAMBDA fid : [h[o] EXCEPT !.vo = fid, !.nv = 1, !.arr = Component(@, c.a.c), !.lab = <<>>, !.map = <<>>, !.mx = TRUE]), rts, c.dst)
+           Bound(AllocF(h, LAMBDA fid : [h[o] EXCEPT !.vo = fid, !.ao = fid, !.nv = 1, !.arr = Component(@, c.a.c), !.lab = <<>>, !.map = <<>>, !.mx = TRUE]), rts, c.dst)
      [] c.op = "lshift" ->
            LET p == rts[c.y]  fo == h[o]  go == h[p]  lab == StackLab(fo, go) IN
            IF fo.mesh # go.mesh THEN Rej(h, rts)
            ELSE Bound(AllocF(h, LAMBDA fid : DFld(fo.mesh, fo.nv + go.nv, IF fo.vx /\ go.vx THEN Stack(fo.arr, go.arr) ELSE [k \in DOMAIN fo.arr |-> ZeroVec(fo.nv + go.nv)],
                                                   AndArr(fo.valid, go.valid), fo.shape, lab, StackMap(fo, go, FR(h, o).dims), fo.vx /\ go.vx, fo.mx /\ go.mx, fid)), rts, c.dst)
      [] c.op = "diff" ->
-           Bound(AllocF(h, LAMBDA fid : [h[o] EXCEPT !.vo = fid, !.vx = FALSE, !.arr = [k \in DOMAIN @ |-> ZeroVec(h[o].nv)]]), rts, c.dst)
+           Bound(AllocF(h, LAMBDA fid : [h[o] EXCEPT !.vo = fid, !.ao = fid, !.vx = FALSE, !.arr = [k \in DOMAIN @ |-> ZeroVec(h[o].nv)]]), rts, c.dst)
      [] c.op = "setvalid" ->
            LET fo == h[o]
                mask == CASE c.a.kind = "array" -> c.a.mask
@@ -484,6 +487,12 @@ Apply(h, rts, c) ==
             roots |-> rts, outcome |-> "ok"]
      [] c.op = "updateconst" ->
            [heap |-> [h EXCEPT ![o].arr = ConstArr2(Len(@), h[o].nv, c.a.c), ![o].vx = TRUE], roots |-> rts, outcome |-> "ok"]
+     [] c.op = "writearray" ->
+           (* field.array[cell] = vector: an in-place write into the value array - every field whose values are that array object sees it *)
+           [heap |-> [q \in DOMAIN h |-> IF IsF(h, q) /\ h[q].ao = h[o].ao
+                                          THEN [h[q] EXCEPT !.arr = IF h[q].vx THEN [@ EXCEPT ![c.a.cell] = [cc \in 1 .. h[q].nv |-> c.a.v + cc - 1]] ELSE @]
+                                          ELSE h[q]],
+            roots |-> rts, outcome |-> "ok"]
      [] c.op = "setarray" ->
            [heap |-> [h EXCEPT ![o].arr = PatArr(Len(@), h[o].nv, c.a.p), ![o].vx = TRUE], roots |-> rts, outcome |-> "ok"]
      [] c.op = "selplane"  -> Bound(SelPlaneRes(h, o, c.a.d, c.a.j), rts, c.dst)
@@ -525,6 +534,8 @@ S_FieldShapes(h)  == \A o \in DOMAIN h : IsF(h, o) => FieldShapeOK(h, o)
 S_SubregionsWellFormed(h) == \A o \in DOMAIN h : IsM(h, o) => SubsWellFormed(h, o) /\ \A s \in SeqRange(h[o].sub) : h[s].dims = MeshReg(h, o).dims
 (* C08: a result's validity is its own - no validity array is shared by two fields *)
 S_OwnValidity(h)  == \A f \in FieldsOf(h) : h[f].vo = f
+(* the same for the values: no value array is shared by two fields (on the current tree every result owns its array) *)
+S_OwnArray(h)     == \A f \in FieldsOf(h) : h[f].ao = f
 S_Labels(h)       == \A f \in FieldsOf(h) : /\ (h[f].lab = <<>> \/ (Len(h[f].lab) = h[f].nv /\ Uniq(h[f].lab)))
                                             /\ (h[f].nv > 1 => h[f].lab # <<>>)
                                             /\ (h[f].map = <<>> \/ Len(h[f].map) = h[f].nv)
@@ -533,6 +544,7 @@ DF_MeshNormal   == S_MeshNormal(heap)
 DF_FieldShapes  == S_FieldShapes(heap)
 DF_SubregionsWellFormed == S_SubregionsWellFormed(heap)
 DF_OwnValidity  == S_OwnValidity(heap)
+DF_OwnArray     == S_OwnArray(heap)
 DF_Labels       == S_Labels(heap)
 DF_RootsLive    == \A v \in DOMAIN roots : roots[v] \in DOMAIN heap
 
@@ -570,7 +582,8 @@ P_Update(h, rts, h2, rts2, c) ==
       /\ DOMAIN h2 = DOMAIN h /\ rts2 = rts
       /\ \A q \in DOMAIN h : q # o => h2[q] = h[q]
       /\ h2[o] = [h[o] EXCEPT !.arr = h2[o].arr, !.vx = h2[o].vx]
-      /\ (c.op # "fromfield" => h2[o].vx)
+      /\ (c.op \notin {"fromfield", "writearray"} => h2[o].vx)
+      /\ (c.op = "writearray" /\ h[o].vx) => h2[o].vx /\ h2[o].arr = [h[o].arr EXCEPT ![c.a.cell] = [cc \in 1 .. h[o].nv |-> c.a.v + cc - 1]]
       /\ (c.op = "updateconst") => \A k \in DOMAIN h2[o].arr : h2[o].arr[k] = [cc \in 1 .. h[o].nv |-> c.a.c + cc - 1]
       (* C02: for a source field, the value of a source cell containing that centre *)
       /\ (c.op = "fromfield" /\ h[rts[c.y]].vx) => h2[o].vx /\ h2[o].arr = FromFieldArr(h, o, rts[c.y])
@@ -682,7 +695,7 @@ P_Persist(h, rts, h2, rts2, c) ==
 DDeepMesh(h, m) == [n |-> h[m].n, region |-> h[h[m].region], sub |-> [j \in DOMAIN h[m].sub |-> h[h[m].sub[j]]], names |-> h[m].names]
 DDeep(h, o) == CASE IsR(h, o) -> h[o]
                  [] IsM(h, o) -> DDeepMesh(h, o)
-                 [] IsF(h, o) -> [mesh |-> DDeepMesh(h, h[o].mesh), f |-> [h[o] EXCEPT !.mesh = 0, !.vo = 0]]
+                 [] IsF(h, o) -> [mesh |-> DDeepMesh(h, h[o].mesh), f |-> [h[o] EXCEPT !.mesh = 0, !.vo = 0, !.ao = 0]]
 GeoOk(c) == OkStep(c) /\ c.op \in GeoOps
 P_InplaceEqualsCopy(h, rts, h2, rts2, c) ==
    GeoOk(c) => LET t == Target(h, rts, c.x, c.tg)
@@ -804,6 +817,7 @@ SetValidNorm  == En("SetValidNorm") /\ \E x \in FR0 : Do(MkCall("setvalid", x, "
 SetValidNone  == En("SetValidNone") /\ \E x \in FR0 : Do(MkCall("setvalid", x, "", x, "self", TRUE, [kind |-> "none", mask |-> <<>>]))
 MutateValid   == En("MutateValid") /\ \E x \in FR0 : \E k \in (IF Rich THEN {1, Len(heap[roots[x]].valid)} ELSE {1}) : Do(MkCall("mutatevalid", x, "", x, "self", TRUE, [cell |-> k]))
 UpdateConst   == En("UpdateConst") /\ \E x \in FR0, cc \in Nums : Do(MkCall("updateconst", x, "", x, "self", TRUE, [c |-> cc]))
+WriteArray    == En("WriteArray") /\ \E x \in FR0 : \E k \in (IF Rich THEN {1, Len(heap[roots[x]].arr)} ELSE {1}) : Do(MkCall("writearray", x, "", x, "self", TRUE, [cell |-> k, v |-> 7]))
 SetArray      == En("SetArray") /\ \E x \in FR0 : Do(MkCall("setarray", x, "", x, "self", TRUE, [p |-> 5]))
 SelPlane  == En("SelPlane") /\ \E x \in FR0 : \E d \in 1 .. NDx(x), dst \in Dsts(roots, x) : \E j \in PlaneIdx(FN(heap, roots[x])[d]) :
                 Do(MkCall("selplane", x, "", dst, "self", FALSE, [d |-> d, j |-> j]))
@@ -834,7 +848,7 @@ Next == \/ Translate \/ Scale \/ MeshRotate90 \/ FieldRotate90 \/ MkField
         \/ Neg \/ Pos \/ Abs_ \/ Add \/ Mul \/ MulNum \/ Comp \/ LShift \/ Diff
         \/ Sub \/ DotP \/ CrossP \/ Norm \/ Orientation \/ Integrate \/ FromField \/ SetSub
         \/ QMeshClose \/ QFieldClose \/ QRegionIn \/ QAligned
-        \/ SetValidArray \/ SetValidNorm \/ SetValidNone \/ MutateValid \/ UpdateConst \/ SetArray
+        \/ SetValidArray \/ SetValidNorm \/ SetValidNone \/ MutateValid \/ UpdateConst \/ SetArray \/ WriteArray
         \/ SelPlane \/ SelRange \/ GetSub \/ GetRegion \/ Pad \/ Resample
         \/ H5 \/ Ovf \/ Vtk \/ Xarray
 Spec == Init /\ [][Next]_vars
